@@ -30,6 +30,29 @@ CLAIMED = {
                  "Idioms modelled explicitly: NULL-lock wrapper, LOCK2/UNLOCK2, EVLOCK_TRY_LOCK_ (shape re-checked), pair partner token (writers re-checked), "
                  "one named re-entry exception (event_reinit -> dealloc -> evsig_dealloc_ -> event_del) with both justifying facts re-checked each run.",
          "technique": "static analysis: interprocedural typestate/balance dataflow over clang CFGs (K1) with summaries, sibling comparison of ops slots (K7)"},
+ "C41": {"level": "proof",
+         "text": "Table clauses decided completely: each EVUTIL_IS*_ accessor's return expression is evaluated as a pure expression over its own constant "
+                 "table for all 256 byte values against the ASCII class definition (2048 obligations), EVUTIL_TOLOWER_/TOUPPER_ likewise (512), with the index "
+                 "required to be an unsigned-byte conversion; structural rules for evutil_ascii_str(n)casecmp/strcasestr (both sides lowered, outcome signs, "
+                 "n bound, fall-through 0) and evutil_sockaddr_cmp (family first, port only under include_port, v4/v6 twins). Does not decide evutil_snprintf "
+                 "or the total-order property beyond branch structure.",
+         "note": STD_NOTE + " ASCII class definitions are the reference model.",
+         "technique": "static analysis: constant-table extraction + exhaustive pure-expression evaluation against a reference model (K6), guard/dominance rules (K4/K7)"},
+ "C29": {"level": "other",
+         "text": "uri_chars[256] equals RFC 3986 unreserved entry by entry; html_replace's switch is extracted and must map exactly the five markup characters "
+                 "to entities of the returned length; evhttp_uriencode's three-way split is checked by guards (raw copy only when unreserved, '+' only for ' ' under "
+                 "space_as_plus, otherwise %%%02X of the unsigned byte, unsigned table index); evhttp_htmlescape's two passes agree; evhttp_decode_uri_internal's "
+                 "look-ahead reads are dominated by i+2 < length and output stores cannot outnumber input advances (never writes more than its length). "
+                 "Round trips and query splitting are declined (runtime strings).",
+         "note": STD_NOTE,
+         "technique": "static analysis: table/switch extraction vs reference model (K6), dominating-guard and path rules on the CFG (K4)"},
+ "C32": {"level": "other",
+         "text": "Protocol constants and encoder structure against RFC 6455 / RFC 4648 / FIPS 180-4: GUID and hash-then-base64 flow of the accept key, base64 alphabet, "
+                 "every sextet expression of Base64encode compared exhaustively (2^8/2^16 byte values) with the reference sextet, padding counts, SHA-1 IV and all 80 "
+                 "unrolled rounds matched to the FIPS template (K_t, f_t truth table, rotations, role rotation, schedule indices, byte swap), make_ws_frame's FIN|opcode, "
+                 "125/65535 thresholds, 126/127 markers and big-endian lengths, close frame bytes. Does not decide SHA1Update/Final padding logic nor digest equality for all inputs.",
+         "note": STD_NOTE + " Reference models: RFC 6455 section 1.3/5.2, RFC 4648 table 1, FIPS 180-4 section 4.1.1/4.2.1/6.1.",
+         "technique": "static analysis: constant and expression-template matching on the AST, exhaustive evaluation of pure index expressions (K6), constant propagation for header positions"},
 }
 
 NOT_APPLICABLE = {
